@@ -56,7 +56,22 @@ def atree_size(t):
     return 1 + sum(atree_size(c) for c in t[1])
 
 
+def big_case(rng):
+    """a tree whose JSON text is well above 4 kB (long strings, many nodes): block-wise writers must not lose tokens"""
+    shape = gen.random_shape(rng, rng.randrange(40, 90))
+    c = make(rng, shape, True)
+    def fatten(t):
+        t[0].append(["blob", json.dumps("x" * rng.randrange(50, 400) + "é\n\t")])
+        for k in t[1]:
+            fatten(k)
+    fatten(c["tree"])
+    return c
+
+
 def base_cases(tier, rng, json_layer):
+    if json_layer:
+        for _ in range(6 if tier == "quick" else 60):
+            yield big_case(rng)
     nmax = 4 if tier == "quick" else 6
     for n in range(1, nmax + 1):
         for sh in gen.shapes(n):
